@@ -38,7 +38,7 @@ ASSUMPTIONS = [
     "datagrams reach the client's queue already unwrapped from <PACKT> framing (the packet consumer is covered by C07/C04)",
     "asyncio interleaves only at suspending awaits; one client task",
 ]
-SITES = ["xfer.*", "ff.*", "thr.*"]
+SITES = ["xfer.*", "ff.*", "thr.*", "thr2.*"]
 PARMS = (DEST[0], DEST[1], SRC_ID, CLI_ID)
 
 
@@ -228,8 +228,58 @@ def threaded_transfer(maxlen, m, R, fault_free):
     return scenario
 
 
+def threaded_two_transfers(sx):
+    """the same threaded structure runs two transfers: the first dies by time-out after receiving only a prefix
+    of its chain, the second is fault-free - nothing of the first may leak into the second"""
+    from sx.vloop import VLoop, patched_time
+    from geckolib.driver import GeckoStructure, GeckoStatusBlockProtocolHandler
+    loop = VLoop()
+    with patched_time(loop):
+        S = sx.block("spa_block", 1024)
+        C = sx.block("client_block", 1024)
+        sim = _mk_sim(S)
+        st = GeckoStructure(None)
+        st.set_status_block(C)
+        sock = _Sock()
+        prefix = 1 + sx.choice("segments_received_before_silence", 2)
+        # transfer A: 3+ segments, only a prefix arrives, every retry is lost too
+        startA = sx.int_("start_a", 0, 800)
+        reqA = GeckoStatusBlockProtocolHandler.request(1, startA, 100, parms=PARMS)
+        reqA._timeout_in_seconds, reqA._retry_count = 0.25, 1
+        st.retry_request(sock, reqA, PARMS)
+        h, dest = sock.sends[0]
+        h.last_destination = dest
+        chain = _serve(sim, h.send_bytes)
+        for seg in chain[:prefix]:
+            reqA.handle(seg, PARMS)
+            reqA.handled(PARMS)
+        for _ in range(4):
+            loop._time += 0.3
+            reqA.loop(sock)                 # time-outs: one retry (lost), then the handler gives up
+        sx.check(reqA.should_remove_handler, "thr.failed-transfer-gives-up")
+        sx.check(st.status_block is C, "thr.failed-transfer-leaves-block-untouched")
+        # transfer B: another range, fault-free
+        startB = sx.int_("start_b", 0, 900)
+        lengthB = sx.int_("length_b", 79, 117)
+        reqB = GeckoStatusBlockProtocolHandler.request(2, startB, lengthB, parms=PARMS)
+        reqB._timeout_in_seconds, reqB._retry_count = 0.25, 1
+        n0 = len(sock.sends)
+        st.retry_request(sock, reqB, PARMS)
+        h, dest = sock.sends[n0]
+        h.last_destination = dest
+        for seg in _serve(sim, h.send_bytes):
+            if reqB.should_remove_handler:
+                break
+            reqB.handle(seg, PARMS)
+            reqB.handled(PARMS)
+        ok = reqB.should_remove_handler and st.had_at_least_one_block
+        sx.check(ok, "thr.ff.succeeds-on-a-fault-free-network")
+        _oracle(sx, bool(ok), S, C, st.status_block, startB, lengthB, "thr2")
+
+
 def units(tier):
     q = tier == "quick"
+    yield Unit("threaded.two-transfers", threaded_two_transfers, fresh_checks=True, max_depth=2000)
     ffmax = 200 if q else 1024
     # fault-free twin, split by segment count through the length range
     step = 39
